@@ -297,4 +297,176 @@ theorem flatMap_uriValuesDeep_flat : ∀ sts : List Style, (∀ st ∈ sts, Flat
     simp [uriValuesDeep_flat st (h st (List.mem_cons_self ..)),
       flatMap_uriValuesDeep_flat sts (fun s hs => h s (List.mem_cons_of_mem _ hs))]
 
+/-! ## T19.2 — path algebra: `normpath` (re-basing) against `urljoin` (resolving) on segment lists -/
+
+/-- a segment that is a name: not empty, not `.`, not `..` -/
+def Normal (c : Str) : Prop := c ≠ [] ∧ c ≠ dot ∧ c ≠ dotdot
+
+def dd (k : Nat) : List Str := List.replicate k dotdot
+
+theorem normStep_empty (a : Bool) (st : List Str) : normStep a st [] = st := by simp [normStep]
+theorem normStep_dot (a : Bool) (st : List Str) : normStep a st dot = st := by simp [normStep]
+theorem rdsStep_dot (st : List Str) : rdsStep st dot = st := by
+  simp [rdsStep, dot, dotdot]
+theorem rdsStep_dotdot (st : List Str) : rdsStep st dotdot = st.tail := by simp [rdsStep]
+theorem rdsStep_normal (st : List Str) (c : Str) (h : c ≠ dot ∧ c ≠ dotdot) : rdsStep st c = c :: st := by
+  simp [rdsStep, h.1, h.2]
+theorem normStep_normal (a : Bool) (st : List Str) (c : Str) (h : Normal c) : normStep a st c = c :: st := by
+  simp [normStep, h.1, h.2.1, h.2.2]
+
+theorem dd_succ (k : Nat) : dd (k + 1) = dotdot :: dd k := by simp [dd, List.replicate_succ]
+
+/-- one step of both machines keeps them in step -/
+theorem step_inv (S : List Str) (N : List Str) (k : Nat) (hN : ∀ c ∈ N, Normal c) (c : Str) (hc : c ≠ []) :
+    ∃ (N' : List Str) (k' : Nat), (∀ c ∈ N', Normal c) ∧ normStep false (N.reverse ++ dd k) c = N'.reverse ++ dd k' ∧
+      rdsStep (N.reverse ++ S.drop k) c = N'.reverse ++ S.drop k' := by
+  by_cases h1 : c = dot
+  · subst h1
+    exact ⟨N, k, hN, normStep_dot _ _, rdsStep_dot _⟩
+  by_cases h2 : c = dotdot
+  · subst h2
+    rcases List.eq_nil_or_concat N with rfl | ⟨N0, x, hNx⟩
+    · refine ⟨[], k + 1, by simp, ?_, ?_⟩
+      · cases k with
+        | zero => simp [normStep, dd, hc, h1]
+        | succ k => simp [normStep, dd_succ, hc, h1]
+      · simp [rdsStep_dotdot]
+    · rw [List.concat_eq_append] at hNx; subst hNx
+      have hx : Normal x := hN x (by simp)
+      refine ⟨N0, k, fun c hc => hN c (by simp [hc]), ?_, ?_⟩
+      · simp [normStep, hx.2.2, hc, h1]
+      · simp [rdsStep_dotdot]
+  · have hn : Normal c := ⟨hc, h1, h2⟩
+    refine ⟨N ++ [c], k, ?_, ?_, ?_⟩
+    · intro d hd
+      rcases List.mem_append.mp hd with h | h
+      · exact hN d h
+      · simp at h; subst h; exact hn
+    · simp [normStep_normal _ _ _ hn]
+    · simp [rdsStep_normal _ _ ⟨h1, h2⟩]
+
+/-- the two machines stay in step over any list of non-empty segments -/
+theorem fold_inv (S : List Str) : ∀ (cs : List Str) (N : List Str) (k : Nat), (∀ c ∈ N, Normal c) →
+    (∀ c ∈ cs, c ≠ []) →
+    ∃ (N' : List Str) (k' : Nat), (∀ c ∈ N', Normal c) ∧
+      cs.foldl (normStep false) (N.reverse ++ dd k) = N'.reverse ++ dd k' ∧
+      cs.foldl rdsStep (N.reverse ++ S.drop k) = N'.reverse ++ S.drop k'
+  | [], N, k, hN, _ => ⟨N, k, hN, rfl, rfl⟩
+  | c :: cs, N, k, hN, hcs => by
+    obtain ⟨N1, k1, hN1, e1, e2⟩ := step_inv S N k hN c (hcs c (List.mem_cons_self ..))
+    obtain ⟨N2, k2, hN2, f1, f2⟩ := fold_inv S cs N1 k1 hN1 (fun d hd => hcs d (List.mem_cons_of_mem _ hd))
+    exact ⟨N2, k2, hN2, by simp only [List.foldl_cons, e1, f1], by simp only [List.foldl_cons, e2, f2]⟩
+
+theorem rds_fold_dd (S : List Str) : ∀ k, (dd k).foldl rdsStep S = S.drop k
+  | 0 => by simp [dd]
+  | k + 1 => by
+    rw [dd_succ, List.foldl_cons, rdsStep_dotdot, rds_fold_dd S.tail k]
+    simp [List.drop_tail]
+
+def NoDot (c : Str) : Prop := c ≠ dot ∧ c ≠ dotdot
+
+theorem rds_fold_nodot : ∀ (N : List Str) (S : List Str), (∀ c ∈ N, NoDot c) → N.foldl rdsStep S = N.reverse ++ S
+  | [], S, _ => by simp
+  | c :: N, S, h => by
+    have hc := h c (List.mem_cons_self ..)
+    rw [List.foldl_cons, rdsStep_normal _ _ hc,
+      rds_fold_nodot N (c :: S) (fun d hd => h d (List.mem_cons_of_mem _ hd))]
+    simp
+
+theorem rds_fold_normal (N : List Str) (S : List Str) (h : ∀ c ∈ N, Normal c) : N.foldl rdsStep S = N.reverse ++ S :=
+  rds_fold_nodot N S (fun c hc => ⟨(h c hc).2.1, (h c hc).2.2⟩)
+
+theorem dd_reverse (k : Nat) : (dd k).reverse = dd k := by simp [dd]
+
+/-- the stacks: resolving the normalised path from `S` gives what resolving the raw path gives -/
+theorem rds_norm_fold (S : List Str) (cs : List Str) (h : ∀ c ∈ cs, c ≠ []) :
+    (normComps false cs).foldl rdsStep S = cs.foldl rdsStep S := by
+  obtain ⟨N, k, hN, e1, e2⟩ := fold_inv S cs [] 0 (by simp) h
+  simp only [List.reverse_nil, List.nil_append, dd, List.replicate_zero, List.drop_zero] at e1 e2
+  have e1' : cs.foldl (normStep false) [] = N.reverse ++ dd k := e1
+  rw [normComps, e1', e2, List.reverse_append, dd_reverse, List.reverse_reverse, List.foldl_append,
+    rds_fold_dd, rds_fold_normal N _ hN]
+
+/-- the last segment of a normalised path is the last segment of the path, when that is a name -/
+theorem normComps_getLast (a : Bool) (cs : List Str) (f : Str) (hf : Normal f) :
+    (normComps a (cs ++ [f])).getLast? = some f := by
+  simp [normComps, List.foldl_append, normStep_normal _ _ _ hf]
+
+/-- what `urljoin` leaves on its stack contains no dot segments -/
+theorem rds_stack_nodot : ∀ (cs : List Str) (S : List Str), (∀ c ∈ S, NoDot c) → ∀ c ∈ cs.foldl rdsStep S, NoDot c
+  | [], S, h => h
+  | c :: cs, S, h => by
+    rw [List.foldl_cons]
+    apply rds_stack_nodot cs
+    intro d hd
+    unfold rdsStep at hd
+    split at hd
+    · exact h d (List.mem_of_mem_tail hd)
+    · split at hd
+      · exact h d hd
+      · rcases List.mem_cons.mp hd with rfl | hd
+        · exact ⟨by assumption, by assumption⟩
+        · exact h d hd
+
+/-- T19.2 on segment lists: from any base directory `T`, the re-based path `norm (D ++ U ++ [f])` resolves to what
+`D ++ U ++ [f]` resolves to (the directory of the import, then the path of the URL) -/
+theorem rdsSegs_norm (T cs : List Str) (f : Str) (h : ∀ c ∈ cs, c ≠ []) (hf : Normal f) :
+    rdsSegs (T ++ normComps false (cs ++ [f])) = rdsSegs (T ++ (cs ++ [f])) := by
+  have hcs : ∀ c ∈ cs ++ [f], c ≠ [] := by
+    intro c hc
+    rcases List.mem_append.mp hc with hc | hc
+    · exact h c hc
+    · simp at hc; subst hc; exact hf.1
+  have l1 : (T ++ normComps false (cs ++ [f])).getLast? = some f := by
+    rw [List.getLast?_append, normComps_getLast false cs f hf]; rfl
+  have l2 : (T ++ (cs ++ [f])).getLast? = some f := by simp
+  unfold rdsSegs
+  simp only [l1, l2, List.foldl_append (l := T), rds_norm_fold _ _ hcs]
+
+/-- the directory of the imported sheet, as `urljoin(parent, href)` leaves it, for `href = D/g` -/
+theorem rdsSegs_dir (T D : List Str) (g : Str) (hg : Normal g) :
+    (rdsSegs (T ++ D ++ [g])).dropLast = ((T ++ D).foldl rdsStep []).reverse := by
+  have l : (T ++ D ++ [g]).getLast? = some g := by simp
+  unfold rdsSegs
+  simp only [l, List.foldl_append (l := T ++ D), List.foldl_cons, List.foldl_nil, rdsStep_normal _ _ ⟨hg.2.1, hg.2.2⟩]
+  simp [hg.2.1, hg.2.2]
+
+/-- resolving `X` from the imported sheet's directory = resolving `D ++ X` from the importing sheet's directory -/
+theorem rdsSegs_two_step (T D X : List Str) (g : Str) (hg : Normal g) (hX : X ≠ []) :
+    rdsSegs ((rdsSegs (T ++ D ++ [g])).dropLast ++ X) = rdsSegs (T ++ D ++ X) := by
+  rw [rdsSegs_dir T D g hg]
+  have hl : ∀ A : List Str, (A ++ X).getLast? = X.getLast? := by
+    intro A
+    rw [List.getLast?_append]
+    cases hx : X.getLast? with
+    | none => simp [List.getLast?_eq_none_iff] at hx; exact absurd hx hX
+    | some x => rfl
+  unfold rdsSegs
+  simp only [hl, List.foldl_append (l' := X)]
+  have hs : ∀ c ∈ (T ++ D).foldl rdsStep [], NoDot c := rds_stack_nodot _ [] (by simp)
+  rw [rds_fold_nodot _ [] (by simpa using hs)]
+  simp
+
+
+instance {ε α : Type} [DecidableEq ε] [DecidableEq α] : DecidableEq (Except ε α)
+  | .ok a, .ok b => if h : a = b then isTrue (by rw [h]) else isFalse (by intro e; cases e; exact h rfl)
+  | .error a, .error b => if h : a = b then isTrue (by rw [h]) else isFalse (by intro e; cases e; exact h rfl)
+  | .ok _, .error _ => isFalse (by intro e; cases e)
+  | .error _, .ok _ => isFalse (by intro e; cases e)
+
+/-- every code point is one that `quote(…, safe='/%')` leaves alone -/
+def QuoteSafe (s : Str) : Prop := ∀ c ∈ s, quoteSafe c = true
+
+theorem quoteSafe_lt (c : Nat) (h : quoteSafe c = true) : c < 0x80 := by
+  simp [quoteSafe, isAsciiAlpha, isDigit, cSlash, cPct] at h
+  rcases h with ((((((((h|h)|h)|h)|h)|h)|h)|h)|h) <;> first | omega | (have := of_decide_eq_true h; omega)
+
+theorem quote_safe : ∀ s, QuoteSafe s → quote s = .ok s
+  | [], _ => rfl
+  | c :: cs, h => by
+    have hc := h c (List.mem_cons_self ..)
+    have ih := quote_safe cs (fun d hd => h d (List.mem_cons_of_mem _ hd))
+    have hlt := quoteSafe_lt c hc
+    simp [quote, utf8, hlt, ih, quoteByte, hc]
+
 end CssVerif.Urls
